@@ -22,7 +22,7 @@ pub struct Site {
 const EOT: &[&str] = &["empty", "one", "three"];
 
 pub const SITES: &[Site] = &[
-    Site { name: "name", levels: &["none", "short", "len255"], full: 2 },
+    Site { name: "name", levels: &["none", "short", "len255", "empty_string"], full: 2 },
     Site { name: "global_sequences", levels: EOT, full: 2 },
     Site { name: "animations", levels: EOT, full: 2 },
     Site { name: "animation_lookup", levels: EOT, full: 2 },
@@ -57,6 +57,10 @@ pub fn site_index(name: &str) -> usize {
     SITES.iter().position(|s| s.name == name).unwrap()
 }
 
+/// header numbers inside the ranges the parser accepts for an expansion, away from the canonical
+/// number (the record-size thresholds 256/260/264/272 are compared against the raw number)
+pub const ALT_NUMBERS: [(&str, M2Version, u32); 3] = [("Vanilla/257", M2Version::Vanilla, 257), ("TBC/263", M2Version::TBC, 263), ("WotLK/271", M2Version::WotLK, 271)];
+
 pub const VERSIONS: [(&str, M2Version); 5] = [
     ("Vanilla", M2Version::Vanilla),
     ("TBC", M2Version::TBC),
@@ -66,8 +70,15 @@ pub const VERSIONS: [(&str, M2Version); 5] = [
 ];
 
 const POOL: [f32; 9] = [0.0, -0.0, 1.0, -1.5, f32::MAX, f32::MIN_POSITIVE, f32::INFINITY, f32::NEG_INFINITY, 1.0e-40];
+thread_local! {
+    static ROT: std::cell::Cell<usize> = const { std::cell::Cell::new(0) };
+}
+/// rotate the assignment of pool values to fields (thorough tier explores two rotations)
+pub fn set_float_rotation(r: usize) {
+    ROT.with(|c| c.set(r));
+}
 pub fn f(k: usize) -> f32 {
-    POOL[k % POOL.len()]
+    POOL[(k + ROT.with(|c| c.get())) % POOL.len()]
 }
 fn v3(k: usize) -> C3Vector {
     C3Vector { x: f(k), y: f(k + 1), z: f(k + 2) }
@@ -214,15 +225,20 @@ fn particle(i: usize) -> M2ParticleEmitter {
 
 /// Build the model of a case. `lv[s]` is the level of site `s`.
 pub fn build(version: M2Version, lv: &[u8]) -> M2Model {
-    let vnum = version.to_header_version();
+    build_numbered(version, version.to_header_version(), lv)
+}
+
+pub fn build_numbered(version: M2Version, vnum: u32, lv: &[u8]) -> M2Model {
     let mut m = M2Model::default();
     m.header = M2Header::new(version);
+    m.header.version = vnum;
     let l = |name: &str| lv[site_index(name)];
 
     m.name = match l("name") {
         0 => None,
         1 => Some("World\\Model_01.m2".to_string()),
-        _ => Some(long_name("N")),
+        2 => Some(long_name("N")),
+        _ => Some(String::new()),
     };
     m.global_sequences = U32S[..n_of(l("global_sequences"))].to_vec();
     let na = n_of(l("animations"));
